@@ -334,6 +334,26 @@ class Interp:
             if ia[0] == 'agg' or 'Range' in canon(ia):
                 return V(u)      # sub-slice
             return S(self._role(u, args[1]))
+        if nm == 'collect' and len(args) == 1:
+            # v.iter().map(|x| body).collect(): a vector whose element unit is the unit of the closure body at an element of v
+            a0 = args[0]
+            while a0[0] in ('ref', 'deref', 'cast'):
+                a0 = a0[1]
+            if a0[0] == 'call' and last_seg(a0[1].split('#')[0]) == 'map' and len(a0[2]) == 2:
+                u = elem_unit(self.ev(st, a0[2][0], depth + 1))
+                clo = a0[2][1]
+                while clo[0] in ('ref', 'deref', 'cast'):
+                    clo = clo[1]
+                if u is not None and clo[0] == 'agg' and clo[1][0] == 'closure' and clo[1][1] in self.F.by_key:
+                    g = self.F.by_key[clo[1][1]][0]
+                    sub = Interp(self.F, self.E, g, self.decl, self.policy, self.inline)
+                    st0 = {'arg2': S(u)}
+                    for nmv, op in zip(clo[1][2], clo[2]):
+                        st0['arg1.%s' % nmv] = self.ev(st, op, depth + 1)
+                    r = sub.ev(st0, g.sym_local(0))
+                    if r is not None and r[0] == 'S':
+                        return V(r[1])
+            return TOP
         if nm in ('is_finite', 'is_infinite', 'is_nan', 'is_empty', 'is_some', 'is_none', 'is_infeasible'):
             return ('B',)
         if nm in ('total_time', 'as_secs_f64', 'elapsed'):
